@@ -52,7 +52,8 @@ def _start(ctx: Ctx, attach) -> None:
 
 
 def prelude(w, same_request: bool = False, idle_ms: int = 0, mode=None, closure=None, msgs=None,
-            cancel_after: int | None = None, other_content: bool = False, narrow_dest_id: bool = False) -> bool:
+            cancel_after: int | None = None, other_content: bool = False, narrow_dest_id: bool = False,
+            lose_first_eof: bool = False) -> bool:
     """An earlier transaction on the same handler objects and the same filestore over a perfect link (not judged:
     monitors are attached afterwards). same_request: the very request of the run is executed (same path, size
     and content), otherwise the file goes to dst/prev.bin. other_content: a different file of the SAME size is sent
@@ -75,6 +76,18 @@ def prelude(w, same_request: bool = False, idle_ms: int = 0, mode=None, closure=
         req.destination_id = UnsignedByteField(w.b.eid.value, 1)
     saved = (w.link.enabled, w.link.hook, dict(w.link.partition), w.pacing, w.fs_fault)
     w.link.enabled, w.link.hook, w.pacing, w.fs_fault = set(), None, "regular", None
+    if lose_first_eof:
+        # the one exception to the perfect link: the first EOF PDU of the earlier transaction is lost, so that its
+        # positive ACK procedure had to re-send it once
+        lost = {"n": 0}
+
+        def eof_hook(src_ent, dst, em, key):
+            if key == "a>b EOF" and lost["n"] == 0:
+                lost["n"] = 1
+                return ("drop",)
+            return None
+
+        w.link.hook = eof_hook
     w.call(w.a, "src", "put", arg=req)
     w.start_polls()
     if cancel_after is not None:
@@ -206,7 +219,8 @@ def bounded_faults(t, attach=None, force=None) -> Ctx:
                 mode=[None, ACK, UNACK][t.choose(3, "prelude mode")], closure=[None, True, False][t.choose(3, "prelude closure")],
                 cancel_after=[None, None, 2 + t.choose(12, "prelude cancel after")][t.choose(3, "prelude cancelled")],
                 other_content=(not same) and t.choose(2, "prelude other content") == 1,
-                narrow_dest_id=t.choose(3, "prelude narrow dest id") == 2)
+                narrow_dest_id=t.choose(3, "prelude narrow dest id") == 2,
+                lose_first_eof=t.choose(3, "prelude loses first EOF") == 2)
         w.link.budget = saved_budget
     longest = max(cfg.ack_s, cfg.nak_s)
     bound_ms = int((2 * cfg.ack_lim + cfg.nak_lim + 6) * longest * 1000) + max(w.link.delays_ms) + 1000
